@@ -32,6 +32,8 @@ func main() {
 		}
 	case "check":
 		os.Exit(mainCheck(os.Args[2:]))
+	case "replay":
+		os.Exit(mainReplay(os.Args[2:]))
 	default:
 		fmt.Fprintln(os.Stderr, "unknown command")
 		os.Exit(2)
